@@ -270,11 +270,19 @@ impl Cx {
     }
 }
 
+pub static TRACE_CASES: std::sync::atomic::AtomicBool = std::sync::atomic::AtomicBool::new(false);
+
 /// Run cases `from..to`.  `f` is the per-case driver.
 pub fn run_cases(cx: &mut Cx, from: u64, to: u64, f: &dyn Fn(&mut Cx, &mut Rng) -> R) {
     for case in from..to {
         PROGRESS_CASE.store(case, Ordering::Relaxed);
         PROGRESS_TICK.fetch_add(1, Ordering::Relaxed);
+        if TRACE_CASES.load(Ordering::Relaxed) {
+            // crash localisation: the driver re-runs a shard that died without a summary with this flag on
+            use std::io::Write;
+            println!("{{\"t\":\"case\",\"case\":{}}}", case);
+            let _ = std::io::stdout().flush();
+        }
         run_one(cx, case, f, false);
     }
     PROGRESS_CASE.store(u64::MAX, Ordering::Relaxed);
